@@ -1,9 +1,11 @@
 (* C03 -- matrix, face/coface, basis and index views describe the same complex: the part proved
    for every history (index view = listing view).  Theorem statements only; proofs in RepInv.v.
-   Not proved yet (tested by the oracle): the entries of the boundary operators against faces(),
-   cofaces as the inverse of faces, basis = points of the closure, d.d = 0. *)
+   Proved for every history too: the SHAPE of every boundary operator and basis matrix (one
+   column per k-simplex, one row per (k-1)-simplex / per point) -- Shapes.v, ShapesReach.v.
+   Not proved for unbounded histories (bounded kernel sweep + oracle): the entries of the boundary
+   operators against faces(), cofaces as the inverse of faces, basis = points of the closure, d.d = 0. *)
 From Coq Require Import String ZArith Bool Arith List.
-From SV Require Import Names NamesFacts ListFacts Rep Fresh Complex Atomic RepInv Reach Homology Filtration Gen World Small Sweeps.
+From SV Require Import Names NamesFacts ListFacts Rep Fresh Complex Atomic RepInv Reach Homology Filtration Gen World Small Sweeps Shapes ShapesReach.
 Import ListNotations.
 
 (* indexOf is the simplex's position in the listing of its order, orderOf that order *)
@@ -39,3 +41,43 @@ Theorem C03_views_agree_after_mutation_upto4_partial : forall c, In c complexes4
   chk_delete (build c) = true /\ chk_addb (build c) = true.
 Proof. intros c H. split; [now apply delete_upto4 | now apply addb_upto4]. Qed.
 Print Assumptions C03_views_agree_after_mutation_upto4_partial.
+
+(* SHAPES, every history: the order-k boundary operator has one column per k-simplex and one row
+   per (k-1)-simplex (sinv also says the same of the basis matrices: one row per point) ... *)
+Theorem C03_boundary_shape :
+  forall r k, sinv r -> k < r_nord r ->
+  ncols (boundaryOperator r k) = length (simplicesOfOrder r k) /\
+  (1 <= k -> nrows (boundaryOperator r k) = length (simplicesOfOrder r (k - 1))).
+Proof. exact boundary_shape. Qed.
+Print Assumptions C03_boundary_shape.
+(* ... also for k = 0 (the 1 x n0 zero row) and above the maximum order (the empty matrix) *)
+Theorem C03_boundary_columns :
+  forall r k, sinv r -> ncols (boundaryOperator r k) = length (simplicesOfOrder r k).
+Proof. exact boundary_ncols. Qed.
+Print Assumptions C03_boundary_columns.
+(* ... where sinv holds at every point of every history of the three mutators of the representation *)
+Theorem C03_shapes_at_every_point : forall uid ops, sinv (fold_left rstep ops (empty_rep uid)).
+Proof. exact reachable_sinv. Qed.
+Print Assumptions C03_shapes_at_every_point.
+(* ... and is kept by every algorithm of base.py, whether the call succeeds or raises *)
+Theorem C03_shapes_kept_by_every_public_mutator :
+  (forall r s r' x, sinv r -> deleteSimplex r s = (r', x) -> sinv r') /\
+  (forall r bs r' x, sinv r -> deleteSimplexWithBasis r bs = (r', x) -> sinv r') /\
+  (forall r ss r' x, sinv r -> deleteSimplices r ss = (r', x) -> sinv r') /\
+  (forall r bs r' x, sinv r -> restrictBasisTo r bs = (r', x) -> sinv r') /\
+  (forall r bs attr r' x, sinv r -> c_ensureBasis r bs attr = (r', x) -> sinv r') /\
+  (forall r bs id attr r' x, sinv r -> c_addSimplexWithBasis r bs id attr = (r', x) -> sinv r') /\
+  (forall r s pts r' x, sinv r -> barycentricSubdivide r s pts = (r', x) -> sinv r') /\
+  (forall r rn r' st x, sinv r -> relabel r rn = (r', st, x) -> sinv r') /\
+  (forall hp r src rn hp' r' st x, sinv r -> addSimplicesFrom hp r src rn = (hp', r', st, x) -> sinv r') /\
+  (forall hp src uid hp' r' x, copy_new hp src uid = (hp', r', x) -> sinv r') /\
+  (forall hp src target hp' r' x, sinv target -> copy_into hp src target = (hp', r', x) -> sinv r').
+Proof.
+  exact (conj deleteSimplex_sinv (conj deleteSimplexWithBasis_sinv (conj deleteSimplices_sinv
+        (conj restrictBasisTo_sinv (conj ensureBasis_sinv (conj addSimplexWithBasis_sinv
+        (conj barycentricSubdivide_sinv (conj relabel_sinv (conj addSimplicesFrom_sinv
+        (conj copy_new_sinv copy_into_sinv)))))))))).
+Qed.
+Print Assumptions C03_shapes_kept_by_every_public_mutator.
+(* the invariant is not vacuous: it unfolds to concrete shape statements (see Shapes.v) and the
+   sweep above evaluates the same shapes on every complex on <= 4 points *)
